@@ -155,6 +155,17 @@ func wildGen(prop string) func(rng *verifsim.RNG, idx int, tier string) *Plan {
 
 		// Seeded population: larger lists, tables changing under the running
 		// daemon, listings permuted / duplicated / failing.
+		if rng.Bool(0.2) {
+			// the wildcard stanzas are deprecated and run out during the run: what
+			// they expand to does not depend on how much time is left
+			p.Class = "random+deprecated"
+			v := time.Duration(rng.Range(1, 20)) * time.Second
+			q := time.Duration(1 + rng.Int63n(int64(v)))
+			s.Prefixes[0].Deprecated = true
+			s.Prefixes[0].Valid, s.Prefixes[0].Preferred = sp(v.String()), sp(q.String())
+			s.Routes[0].Deprecated = true
+			s.Routes[0].Lifetime = sp((time.Duration(rng.Range(1, 20)) * time.Second).String())
+		}
 		iw.Addrs = pickAddrs(rng, iw.LL, 10)
 		if rng.Bool(0.1) {
 			// nothing eligible for the RDNSS wildcard
@@ -185,6 +196,29 @@ func wildGen(prop string) func(rng *verifsim.RNG, idx int, tier string) *Plan {
 				p.Actions = append(p.Actions, Action{At: at, Kind: "addrs", If: iw.Name, Addrs: as})
 			}
 			p.Actions = append(p.Actions, rsAction(at+int64(rng.Dur(time.Millisecond, time.Second)), hostAddr(rng.Intn(3))))
+		}
+		if rng.Bool(0.08) {
+			// the interface is not there when the daemon starts: whoever asks for
+			// its RA meanwhile (debug API, metrics) cannot be given an expansion
+			up := int64(rng.Dur(500*time.Millisecond, horizon/2))
+			iw.Down = true
+			n.Config.Debug = &DebugSpec{Address: "127.0.0.1:9430", Prometheus: true}
+			p.Actions = append(p.Actions, Action{At: up, Kind: "ifup", If: iw.Name})
+			for i, k := 0, rng.Range(1, 3); i < k; i++ {
+				p.Actions = append(p.Actions, Action{At: int64(rng.Dur(0, time.Duration(up))) + jitter(rng), Kind: "http", Path: []string{"/metrics", "/_/api/interfaces"}[rng.Intn(2)]})
+			}
+			// only this property's wildcard: the others would fail the RA first
+			if prop != "C13" {
+				s.Prefixes = []PrefixSpec{{Prefix: sp("2001:db8:7777::/64")}}
+			}
+			if prop != "C15" {
+				s.Routes = []RouteSpec{{Prefix: sp("2001:db8:8888::/48")}}
+			}
+			if prop != "C14" {
+				s.RDNSS = []RDNSSSpec{{Servers: []string{"2001:db8:53::9"}}}
+			}
+			p.Class += "+asked-before-up"
+			return p
 		}
 		if prop != "C15" && rng.Bool(0.15) {
 			// Two interfaces listing their addresses at overlapping times: eth0's
@@ -361,6 +395,56 @@ func wildOracle(prop string) func(info *runInfo, res *verifsim.Result) {
 			}
 			if len(e) == 0 {
 				res.Probe("empty_" + kind)
+			}
+		}
+		// An RA asked for before the interface has ever been initialised (debug
+		// API, metrics): there is nothing to expand the wildcard from, so there
+		// is no RA - not one without the options.
+		{
+			is := &info.plan.Nodes[0].Config.Interfaces[0]
+			wild := false
+			switch prop {
+			case "C13":
+				for _, x := range is.Prefixes {
+					wild = wild || x.Prefix == nil || *x.Prefix == "" || *x.Prefix == "::/64"
+				}
+			case "C15":
+				for _, x := range is.Routes {
+					wild = wild || x.Prefix == nil || *x.Prefix == "" || *x.Prefix == "::/0"
+				}
+			case "C14":
+				for _, x := range is.RDNSS {
+					wild = wild || len(x.Servers) == 0
+					for _, sv := range x.Servers {
+						wild = wild || sv == "::"
+					}
+				}
+			}
+			acts := map[int]*verifsim.Event{}
+			for i := range info.ev {
+				e := &info.ev[i]
+				switch e.K {
+				case "act.http":
+					acts[e.Seq] = e
+				case "http.exit":
+					a := acts[e.Ref]
+					if a == nil || !wild || e.Err != "" || (a.S != "/metrics" && a.S != "/_/api/interfaces") {
+						continue
+					}
+					never := true
+					for _, g := range h.gens {
+						if g.dialSeq < e.Seq {
+							never = false
+						}
+					}
+					if !never {
+						continue
+					}
+					res.Probe("asked_before_first_initialisation")
+					if e.V < 500 {
+						res.Violate(prop+".fail", "not-initialised", "GET %s at %s answered %d although %s has never been initialised: its %s wildcard cannot be expanded, and RA generation has to fail rather than leave the options out", a.S, ms(a.T), e.V, strings.Join(is.names(), ","), kind)
+					}
+				}
 			}
 		}
 		// A build whose listing failed must not have produced an RA: covered
